@@ -89,10 +89,25 @@ func (w *World) rulesScan(p *Pkg, add func(ok bool, rule, inst string, n ast.Nod
 		cutAbv, cutVal string
 	}
 	var inputs []input
-	for _, canon := range [][]string{base, full} {
-		inputs = append(inputs, input{toks: append([]string(nil), canon...), bad: -1})
+	bads := []string{"", "x", ":"}
+	canons := [][]string{base, full}
+	if w.Tier == "thorough" {
+		// more bad elements, and every prefix of the complete vector that is itself
+		// a sequence of whole elements (the scanner must behave alike on all of them)
+		bads = append(bads, " ", "x:y", "::", "/x"[1:], "AV", "av:n")
+		for k := len(base) + 1; k < len(full); k++ {
+			canons = append(canons, full[:k])
+		}
+	}
+	for ci, canon := range canons {
+		if ci < 2 {
+			inputs = append(inputs, input{toks: append([]string(nil), canon...), bad: -1})
+		}
 		for j := 0; j <= len(canon); j++ {
-			for _, b := range []string{"", "x", ":"} {
+			if ci >= 2 && j < len(canon)-1 {
+				continue // for the extra prefixes: bad element at the end and just before it
+			}
+			for _, b := range bads {
 				if p.Key == "20" && len(canon)+1 > 14 {
 					continue // beyond the 14 slots the splitter keeps the remainder whole
 				}
@@ -103,7 +118,14 @@ func (w *World) rulesScan(p *Pkg, add func(ok bool, rule, inst string, n ast.Nod
 	}
 	// cut probes on the base vector: "ABV:v:v" (value keeps what follows the first
 	// ':') and "ABV" (no ':': empty value) at the first, a middle and the last position
-	for _, j := range []int{0, len(base) / 2, len(base) - 1} {
+	cutPos := []int{0, len(base) / 2, len(base) - 1}
+	if w.Tier == "thorough" {
+		cutPos = nil
+		for j := range base {
+			cutPos = append(cutPos, j)
+		}
+	}
+	for _, j := range cutPos {
 		a, v, _ := strings.Cut(base[j], ":")
 		for _, el := range [][2]string{{a + ":" + v + ":" + v, v + ":" + v}, {a, ""}} {
 			t := append([]string(nil), base...)
